@@ -119,8 +119,10 @@ def gen_sequence(rng, families):
                 ops.append(('jump', rng.choice([0, 1, stride * ti, stride * ti + 3, 5000, -3]), 1, rng.random() < 0.2))
         elif r < 0.83:
             ops.append(('reset', rng.choice([0, -1, 1, -2, 7])))
-        elif r < 0.90:
+        elif r < 0.88:
             ops.append(('direct', rng.choice([1, 3, 8])))
+        elif r < 0.915:
+            ops.append(('set',))                      # dist.set(<same parameters>): must not touch stream state or flags
         elif r < 0.95:
             ops.append(('init', 'tr_%d' % rng.randint(0, 10**6), rng.choice([None, 0, 3]), rng.random() < 0.7))
             has_slots = True
@@ -189,6 +191,13 @@ def run_impl_sequence(case, modulo):
                 exp_len = len(n) if op[0] == 'rvs_uids' else size
                 if np.size(out) != exp_len:
                     res = f'badlen({np.size(out)}!={exp_len})'
+            elif op[0] == 'set':
+                lines.append('set')
+                pars = impl.DIST_PARS[case['family']]
+                if pars and case['family'] not in ('histogram', 'choice'):
+                    d.set(**{k: v for k, v in list(pars.items())[:1]})
+                else:
+                    d.set()
             elif op[0] == 'burst':
                 _, nrep, size = op
                 for _r in range(nrep - 1):
@@ -202,7 +211,9 @@ def run_impl_sequence(case, modulo):
                 lines.append(f"reset {op[1]}")
                 d.reset(op[1])
             elif op[0] == 'direct':
-                lines.append(f"direct {op[1]}")
+                # (a direct draw consumes the stream differently from the family's sampler: the model's draw history tells them
+                #  apart by size, direct draws are sent as 1000000 + n)
+                lines.append(f"direct {1000000 + op[1]}")
                 pre = full_state(d)
                 d.rng.random(op[1])
                 start = pre
@@ -660,6 +671,25 @@ def oracle_guards():
         d.jump(to=5, force=True)
     except Exception:
         fails.append(dict(signature=dict(oracle='guard', guard='forced-jump'), what='a forced backwards jump was refused'))
+    # changing parameters between two draws of one step does not re-arm a strict, non-auto distribution
+    d = ss.bernoulli(p=0.5, auto=False); d.init(trace='g', seed=1, sim=sim, slots=slots)
+    d.rvs(3)
+    d.set(p=0.3)
+    try:
+        d.rvs(3); fails.append(dict(signature=dict(oracle='guard', guard='set-rearms'), what='a strict non-auto distribution drew twice in a step after set(p=...) between the draws'))
+    except ss.distributions.DistNotReadyError: pass
+    # negative (burn-in) indices are distinct states with distinct numbers
+    d = mk(); d.init(trace='n', seed=1, sim=sim, slots=slots)
+    seen = {}
+    for ti in (-4, -3, -2, -1):
+        try:
+            d.jump_dt(ti=ti, force=(ti == -4))
+            st = full_state(d); x = tuple(d.rvs(4).tolist())
+        except Exception as e:
+            fails.append(dict(signature=dict(oracle='guard', guard='negative-index'), what=f'jump_dt to the burn-in index {ti} raised {type(e).__name__}')); break
+        if st in seen:
+            fails.append(dict(signature=dict(oracle='guard', guard='negative-index-state'), what=f'the burn-in steps ti={seen[st]} and ti={ti} start from the same generator state (and draw the same numbers)')); break
+        seen[st] = ti
     # auto: successive draws in one step differ, successive steps differ
     d = mk(); d.init(trace='c', seed=1, sim=sim, slots=slots)
     d.jump_dt(ti=1); x1 = d.rvs(5); x2 = d.rvs(5); d.jump_dt(ti=2); x3 = d.rvs(5)
